@@ -1,5 +1,7 @@
-(** C31 -- Symbol and record interning is a bijection under concurrency (hash-map part).
-    Only statements here; proofs are in HashMapLemmas.v. The model (HashMapDefs.v) follows
+(** C31 -- Symbol and record interning is a bijection under concurrency.
+    Only statements here; proofs are in HashMapLemmas.v (hash map) and FlyweightLemmas.v
+    (flyweight = symbol table / record table core, second half of this file). The model
+    (HashMapDefs.v) follows
     src/include/souffle/datastructure/ConcurrentInsertOnlyHashMap.h ([get], [tryGrow]) and
     src/include/souffle/utility/ParallelUtil.h ([MutexConcurrentLanes]) step by step; it is tied
     to the real code by the step-level correspondence run by `./check C31`.
@@ -13,7 +15,7 @@
     and every interleaving of the atomic steps. [published st id]: node [id] is reachable from a
     bucket head through [Next] pointers. [policy_ok next_buckets]: the growth policy never asks
     for 0 buckets. *)
-From SV Require Import HashMapDefs HashMapLemmas.
+From SV Require Import HashMapDefs HashMapLemmas FlyweightDefs FlyweightLemmas.
 Local Open Scope N_scope.
 
 (** (a) In every reachable state no key occurs in two published nodes, a node reachable from
@@ -110,3 +112,85 @@ Theorem C31_exhaustive_3x1_growth : forall sched,
   mon hash4 st rs = true /\ stuck hash4 grow_b grow_m (st, rs) = false.
 Proof. exact exhaustive_3x1_growth. Qed.
 Print Assumptions C31_exhaustive_3x1_growth.
+
+(** ** The flyweight ([ConcurrentFlyweight]: SymbolTableImpl encode/decode, RecordTable pack/unpack)
+
+    [frun rf cap0 progs sched]: same conventions as [run]; [rf] = FirstSlotIsReserved (true for
+    record tables: index 0 is the nil record), [cap0] = InitialCapacity, a program is a list of
+    [OIns key] (findOrInsert = encode / pack) and [OFetch index] (fetch = decode / unpack);
+    responses are [RIns key index inserted] and [RFetch index result]. [Mapping.get] is one
+    step of this model (see FlyweightDefs.v for why that is what the hash-map theorems give).
+    [fetch_now st i] is what [fetch(i)] reads in state [st]. *)
+
+(** Equal values get the same reference and different values different references; decoding a
+    reference that was handed out returns the original value (in the final state of any run, hence
+    at any later time); the nil index 0 is never handed out by a reserve-first table; a fetch
+    that returned a value returned the value interned at that index. *)
+Theorem C31_flyweight_bijection :
+  forall rf cap0 progs sched, cap0 <> 0 ->
+    let st := fst (frun rf cap0 progs sched) in
+    let h := snd (frun rf cap0 progs sched) in
+    (forall t1 t2 k1 k2 i1 i2 b1 b2,
+        In (t1, RIns k1 i1 b1) h -> In (t2, RIns k2 i2 b2) h -> (k1 = k2 <-> i1 = i2))
+    /\ (forall t k i b, In (t, RIns k i b) h -> fetch_now st i = Some k)
+    /\ (rf = true -> forall t k i b, In (t, RIns k i b) h -> i <> 0)
+    /\ (forall t i k, In (t, RFetch i (Some k)) h -> fetch_now st i = Some k).
+Proof. exact frun_bijection. Qed.
+Print Assumptions C31_flyweight_bijection.
+
+(** In a quiescent state reached by any run (whatever slot-array growth happened on the way, and
+    whatever reserved-but-unused slots the lanes still hold), the iterator begin()..end() yields
+    exactly the assigned indices, each once, in increasing order (it is the list of indices
+    below NextSlot that are neither a lane's reserved slot nor the nil index); the values it
+    shows are pairwise distinct and include every value ever interned. *)
+Theorem C31_iter_lists_each_once :
+  forall rf cap0 progs sched, cap0 <> 0 ->
+    let st := fst (frun rf cap0 progs sched) in
+    let h := snd (frun rf cap0 progs sched) in
+    fnext st < END -> fquiescent st = true ->
+    iterate rf st = filter (asg rf st) (rangeN 0 (fnext st))
+    /\ NoDup (iterate rf st)
+    /\ (forall i, In i (iterate rf st) <-> assigned st i)
+    /\ NoDup (map (fetch_now st) (iterate rf st))
+    /\ (forall t k i b, In (t, RIns k i b) h -> In i (iterate rf st) /\ fetch_now st i = Some k).
+Proof. exact frun_iter_lists_each_once. Qed.
+Print Assumptions C31_iter_lists_each_once.
+
+(** Slot-array growth: when lane [g] is in the safe section of [tryGrow], every other thread is
+    outside its lane (idle or waiting in beforeLockAllBut), and the growth step keeps what every
+    existing index decodes to and the set of interned values. *)
+Theorem C31_flyweight_grow_preserves :
+  forall rf cap0 progs sched g, cap0 <> 0 ->
+    let st := fst (frun rf cap0 progs sched) in
+    (g < length (fthreads st))%nat -> fpcof st g = FGrow ->
+    (forall t, (t < length (fthreads st))%nat -> t <> g -> foutside (fpcof st t))
+    /\ exists st', fstep st g = Some (st', [])
+         /\ fcount st < fcount st'
+         /\ (forall i, i < fcount st -> fetch_now st' i = fetch_now st i)
+         /\ fmap st' = fmap st.
+Proof. exact frun_grow_preserves. Qed.
+Print Assumptions C31_flyweight_grow_preserves.
+
+(** Bounded exhaustive checks of the executable monitor [fmon] (bijection over the responses,
+    decode after encode, nil never handed out, fetch never wrong, iterator = assigned indices at
+    quiescence) and of the absence of stuck configurations, over every schedule of: a
+    reserve-first table of capacity 2 with 2 lanes x (2 inserts + 1 fetch), growth contended;
+    a symbol-style table of capacity 1 with 2 lanes x 2 inserts of the same keys in opposite
+    orders; 3 lanes x 1 insert with growth. *)
+Theorem C31_fexhaustive_2x3_reserve_first : forall sched,
+  let '(st, rs) := frun true 2 [[OIns 5; OIns 9; OFetch 1]; [OIns 5; OIns 13; OFetch 2]] sched in
+  fmon true st rs = true /\ fstuck (st, rs) = false.
+Proof. exact fexhaustive_2x3_reserve_first. Qed.
+Print Assumptions C31_fexhaustive_2x3_reserve_first.
+
+Theorem C31_fexhaustive_2x2_symbols : forall sched,
+  let '(st, rs) := frun false 1 [[OIns 5; OIns 9]; [OIns 9; OIns 5]] sched in
+  fmon false st rs = true /\ fstuck (st, rs) = false.
+Proof. exact fexhaustive_2x2_symbols. Qed.
+Print Assumptions C31_fexhaustive_2x2_symbols.
+
+Theorem C31_fexhaustive_3x1_growth : forall sched,
+  let '(st, rs) := frun true 1 [[OIns 5]; [OIns 9]; [OIns 5]] sched in
+  fmon true st rs = true /\ fstuck (st, rs) = false.
+Proof. exact fexhaustive_3x1_growth. Qed.
+Print Assumptions C31_fexhaustive_3x1_growth.
